@@ -206,7 +206,21 @@ fn cmd_worker(args: &[String]) -> i32 {
         let sc = gen_scenario(seed, &fixtures);
         let out = run_scenario(&sc);
         if out.hung {
-            st.errors.push(format!("seed {}: a simulated thread died or hung", seed));
+            // Nobody passes a scheduling point any more although every waiting thread has been
+            // offered the baton (take-overs): the calls themselves wait for something that will
+            // never come - e.g. a slot or a lock that an earlier, abandoned call took with it.
+            // That is state left behind by a call, observed by another: a verdict, not a harness
+            // problem. (This process is beyond repair; the worker ends here.)
+            println!(
+                "{}",
+                serde_json::to_string(&WorkerMsg::Found(FoundMsg {
+                    index: i,
+                    scenario: with_explicit(&sc, &out.decisions),
+                    violation: Violation17 { invariant: "V17.9-hang".into(), tid: 0, call: 0, message: hang_message() },
+                    prefix_seeds: prefix.clone(),
+                }))
+                .unwrap()
+            );
             break;
         }
         // ---- statistics and reach probes
@@ -326,6 +340,10 @@ fn cmd_worker(args: &[String]) -> i32 {
     0
 }
 
+fn hang_message() -> String {
+    "no thread passes a scheduling point any more although every thread that is not finished was free to run: calls wait for something that never comes (a slot, a lock or a flag that an earlier - possibly abandoned - call left behind)".to_string()
+}
+
 fn cmd_exec() -> i32 {
     vsim::oracle::silence_panics();
     let mut s = String::new();
@@ -346,6 +364,8 @@ fn cmd_exec() -> i32 {
             Ok(v) => violations = v,
             Err(_) => return 2,
         }
+    } else {
+        violations.push(Violation17 { invariant: "V17.9-hang".into(), tid: 0, call: 0, message: hang_message() });
     }
     let ans = ExecAnswer {
         violations,
@@ -1454,7 +1474,13 @@ fn cmd_run(args: &[String]) -> i32 {
         let f = fs.iter().min_by_key(|f| serde_json::to_string(&f.scenario).map(|s| s.len()).unwrap_or(0)).unwrap();
         let mut fx = FreshExec { exe: exe.clone(), shim: shim_path(), runs: 0 };
         let mut sh = Shrinker17 { fx: &mut fx, invariant: invariant.clone(), budget: 400 };
-        let (sc, prefix, v, digest, note) = match sh.shrink(&f.scenario, &f.prefix_seeds) {
+        let shrunk = if invariant == "V17.9-hang" {
+            // (not minimised: every attempt that still hangs costs the whole hang timeout)
+            Some((f.scenario.clone(), f.prefix_seeds.clone(), ExecAnswer { violations: vec![f.violation.clone()], result_digest: 0, log_digest: 0, decisions: vec![], hung: true, takeovers: 0 }))
+        } else {
+            sh.shrink(&f.scenario, &f.prefix_seeds)
+        };
+        let (sc, prefix, v, digest, note) = match shrunk {
             Some((sc, prefix, ans)) => {
                 let v = ans.violations.iter().find(|v| v.invariant == *invariant).cloned().unwrap_or(f.violation.clone());
                 (sc, prefix, v, ans.result_digest, format!("minimised in {} fresh-process executions from run index {} (seed {})", fx.runs, f.index, f.scenario.seed))
